@@ -49,6 +49,8 @@ pub fn output_tokens(
     }));
 
     let out_trait = out_trait::analyze_trait(item_trait)?;
+    #[cfg(entrait_verif)]
+    crate::verif::point("entrait_trait::analyzed", out_trait.fns.len());
     let sub_attributes = analyze_sub_attributes(&out_trait.attrs);
     let impl_sub_attributes: Vec<_> = sub_attributes
         .iter()
